@@ -546,6 +546,21 @@ def fields_rule(ctx, fv):
         for n in fv.nodes:
             if n.get("k") == "field" and n.get("adt") == "kmertools::args::%s" % struct:
                 read.add(n["name"])
+            # `Commands::Ctr(CounterCommand { input, output, .. })`: a field bound by a struct pattern is read
+            pats = [a["pat"] for a in n.get("arms", [])] if n.get("k") == "match" else \
+                ([n["pat"]] if n.get("k") in ("let", "letexpr") and isinstance(n.get("pat"), dict) else [])
+            stack = list(pats)
+            while stack:
+                p_ = stack.pop()
+                if not isinstance(p_, dict):
+                    continue
+                if p_.get("k") == "pstruct" and norm_path(p_.get("path", "")) == "kmertools::args::%s" % struct:
+                    for f_ in p_.get("fields", []):
+                        if f_.get("pat", {}).get("k") != "pwild":
+                            read.add(f_["name"])
+                stack.extend(p_.get("ps", []) or [])
+                stack.extend(f_.get("pat") for f_ in (p_.get("fields", []) or []))
+                stack.extend(x for x in (p_.get("pat"), p_.get("sub")) if x)
         for f in fields:
             ctx.check("C15.U", "%s.%s" % (struct, f), f in read, "option `%s` is read by cli()" % f,
                       "option `%s` of %s is declared but never read in cli(): it is silently ignored" % (f, struct),
